@@ -334,6 +334,10 @@ func (sfr *SegmentFileReader) ReturnBuffers() error {
 func (sfr *SegmentFileReader) readBlock(blockNum uint16) (bool, error) {
 	validBlock, err := sfr.loadBlockUsingBuffer(blockNum)
 	if !validBlock {
+		// The column does not exist in this block. The buffers still hold the block that was read before; forget
+		// it, so that ReadRecord does not return that block's records for this block's record numbers.
+		sfr.isBlockLoaded = false
+		sfr.someBlksAbsent = true
 		return false, ErrColumnNotInBlock
 	}
 	if err != nil {
@@ -417,6 +421,14 @@ func (sfr *SegmentFileReader) loadBlockUsingBuffer(blockNum uint16) (bool, error
 
 // Returns the raw bytes of the record in the currently loaded block
 func (sfr *SegmentFileReader) ReadRecord(recordNum uint16) ([]byte, error) {
+	if !sfr.isBlockLoaded {
+		// no block is loaded: the column does not exist in the block that was asked for last
+		if sfr.someBlksAbsent {
+			return nil, nil
+		}
+		return nil, ErrRecordNotFound
+	}
+
 	// if dict encoding, we use the dictmapping
 	if sfr.encType == sutils.ZSTD_DICTIONARY_BLOCK[0] {
 		ret, err := sfr.deGetRec(recordNum)
